@@ -194,4 +194,11 @@ def rule_append_only(ctx):
               "replacement exists anywhere in the crate" % (name, shared), loc=body_loc(hd), detail=bad[:4] + (["pushers: %s" % pushers] if pushers != ["AmendedRequest::<Body>::set_header"] else []))
 
 
-RULES = [rule_adaptors, rule_push, rule_append_only, rule_header_order, rule_capacity]
+def rule_line_format(ctx):
+    """`emitted ... whatever its name` with its value: the line written for an effective header is {name}": "<raw value bytes>CRLF
+    (R02.3, shared with C02) -- a lossy or re-encoded value is not the header the caller added"""
+    from .rules_c02 import rule_header_lines
+    rule_header_lines(ctx)
+
+
+RULES = [rule_adaptors, rule_push, rule_append_only, rule_header_order, rule_line_format, rule_capacity]
